@@ -11,6 +11,49 @@ def _opt(vals):
     return [None] + list(vals)
 
 
+M31 = 2 ** 31 - 1
+B30 = M31 // 2
+
+
+def w32_requests(add, guard, R):
+    """the wrapping 32-bit kernels `Gen.CurW.*` against the real methods executed on int32 shape arrays (no data
+    buffer is needed): rows up to 2^31-1 cells, slice fields up to the clip of IndexableArray._bounded_slice"""
+    from npstructures.raggedshape import RaggedView2, ViewBase
+    old = ViewBase._dtype
+    ViewBase.set_dtype(np.int32)
+    try:
+        rows = [(0, 0), (0, 1), (3, 5), (0, B30), (7, B30 + 1), (0, B30 + 6), (11, M31 - 11), (0, M31), (M31 - 1, 1), (M31, 0),
+                (5, 2 ** 20 + 1), (B30, B30)]
+        starts = np.array([r[0] for r in rows], dtype=np.int32)
+        lens = np.array([r[1] for r in rows], dtype=np.int32)
+        v = RaggedView2(starts, lens, 1)
+        assert v.starts.dtype == np.int32 and v.lengths.dtype == np.int32
+        bnd = [None, 0, 1, -1, 5, -5, 2 ** 20, -(2 ** 20), B30 - 1, B30, -B30, -(B30 - 1)]
+        steps = [None, 1, 2, 3, B30 - 6, B30 - 1, B30, -1, -2, -7, -(B30 - 1), -B30]
+        e = v.ends
+        for (s0, l), x in zip(rows, e):
+            add({"kernel": "w32.view2_ends", "len": l, "s0": s0, "c": 1}, int(x), "w32")
+        for a in bnd:
+            for b in bnd:
+                for k in steps:
+                    r = guard(lambda: v.col_slice(slice(a, b, k)))
+                    for i, (s0, l) in enumerate(rows):
+                        add({"kernel": "w32.col_slice_slice", "len": l, "s0": s0, "c": 1, "a": a, "b": b, "k": k},
+                            R if r is None else [int(r.starts[i]), int(r.lengths[i]), int(r.col_step)], "w32")
+                    if k is not None and k < 0:
+                        r = guard(lambda: v._calculate_lengths(slice(a, b, k)))
+                        for i, (s0, l) in enumerate(rows):
+                            add({"kernel": "w32.calc_lengths", "len": l, "a": a, "b": b, "k": k}, R if r is None else int(r[i]), "w32")
+        for idx in [0, 1, -1, 4, -5, 5, B30, -B30, M31 - 12, -(M31 - 11), M31, -M31, 2 ** 40, -(2 ** 40)]:
+            for (s0, l) in rows:
+                w = RaggedView2(np.array([s0], dtype=np.int32), np.array([l], dtype=np.int32), 1)
+                r = guard(lambda: w.col_slice(idx))
+                add({"kernel": "w32.col_slice_int", "len": l, "s0": s0, "c": 1, "idx": idx},
+                    R if r is None else [int(r.starts[0]), int(r.lengths[0])], "w32")
+    finally:
+        ViewBase.set_dtype(old)
+
+
 def validate(kernels):
     from npstructures.raggedshape import RaggedView2
     from npstructures import RunLengthArray, HashTable
@@ -114,6 +157,8 @@ def validate(kernels):
                 # the real method's value, reproduced from the generated (register, position) pair on the real registers
                 add({"kernel": "bit_addr", "off": int(ba._offset), "npr": int(ba._n_entries_per_register), "idx": idx},
                     ("bit", ba, idx), "bit_addr")
+    if "w32" in kernels:
+        w32_requests(add, guard, R)
     # expand groups
     flat, index = [], []
     for r in reqs:
